@@ -47,6 +47,10 @@ pub struct Orientation {
     pub comp_of: BTreeMap<Edge, usize>,
     /// edge -> (crossing, slot) the edge points into
     pub head: BTreeMap<Edge, (usize, usize)>,
+    /// edge -> (crossing, slot) the edge leaves from
+    pub tail: BTreeMap<Edge, (usize, usize)>,
+    /// components whose orientation is a free choice (they never pass under a crossing)
+    pub ambiguous_comps: Vec<usize>,
 }
 
 impl Diagram {
@@ -140,6 +144,8 @@ impl Diagram {
         };
         // head[e] = Some(slot) when e is known to point INTO that slot
         let mut head: BTreeMap<Edge, (usize, usize)> = BTreeMap::new();
+        let mut tail_of: BTreeMap<Edge, (usize, usize)> = BTreeMap::new();
+        let mut ambiguous_comps: Vec<usize> = vec![];
         let mut comp_of: BTreeMap<Edge, usize> = BTreeMap::new();
         let mut ambiguous = false;
         let mut components = 0;
@@ -187,32 +193,46 @@ impl Diagram {
             }
             if agree == 0 && disagree == 0 {
                 ambiguous = true;
+                ambiguous_comps.push(components);
             }
             for &(e, tail, hd) in &walk {
                 head.insert(e, if disagree > 0 { tail } else { hd });
+                tail_of.insert(e, if disagree > 0 { hd } else { tail });
             }
             components += 1;
         }
-        let mut signs = vec![];
-        for (ci, x) in self.xs.iter().enumerate() {
-            if x.resolved.is_some() {
-                signs.push(0);
-                continue;
-            }
-            // over-strand runs d -> b iff edge d points into slot 3
-            let d_in = head[&x.e[3]] == (ci, 3);
-            let b_in = head[&x.e[1]] == (ci, 1);
-            if d_in == b_in {
-                // both ends of the over strand point in (or out): only possible for a kink where the
-                // same edge sits at two slots; resolve by the slot the edge's head is recorded at
-                signs.push(if d_in { 1 } else { -1 });
-            } else {
-                signs.push(if d_in { 1 } else { -1 });
-            }
-        }
+        let signs = self.signs_from_heads(&head);
         let n_plus = signs.iter().filter(|&&s| s == 1).count();
         let n_minus = signs.iter().filter(|&&s| s == -1).count();
-        Ok(Orientation { signs, n_plus, n_minus, components, ambiguous, comp_of, head })
+        Ok(Orientation { signs, n_plus, n_minus, components, ambiguous, comp_of, head, tail: tail_of, ambiguous_comps })
+    }
+
+    fn signs_from_heads(&self, head: &BTreeMap<Edge, (usize, usize)>) -> Vec<i32> {
+        self.xs.iter().enumerate().map(|(ci, x)| {
+            if x.resolved.is_some() {
+                0
+            } else if head[&x.e[3]] == (ci, 3) {
+                1 // the over-strand runs d -> b
+            } else {
+                -1
+            }
+        }).collect()
+    }
+
+    /// The orientation with the given (ambiguous) components reversed.
+    pub fn orientation_flipped(&self, flips: &[usize]) -> Result<Orientation, PdError> {
+        let mut o = self.orientation()?;
+        for (e, c) in o.comp_of.clone() {
+            if flips.contains(&c) {
+                let (h, t) = (o.head[&e], o.tail[&e]);
+                o.head.insert(e, t);
+                o.tail.insert(e, h);
+            }
+        }
+        o.signs = self.signs_from_heads(&o.head);
+        o.n_plus = o.signs.iter().filter(|&&s| s == 1).count();
+        o.n_minus = o.signs.iter().filter(|&&s| s == -1).count();
+        Ok(o)
     }
 
     /// Circles (as sorted edge sets, ordered by smallest edge) of the complete resolution given by
